@@ -80,13 +80,14 @@ def gen_module(rng, n, names, ctx_choice, penv, pc, pu, focus):
     pbuild = 0.35 if focus == "build" else 0.08
     if pick(rng, pbuild):
         m["build"] = {"cmd": ["gen ${X} > ${out}"] + (["touch ${relpath}/stamp"] if pick(rng, 0.3) else []),
-                      **({"out": [n + "_gen.h"] + ([n + "_gen2.h"] if pick(rng, 0.3) else [])} if pick(rng, 0.85) else {})}
+                      **({"out": [(rng.choice(["gen/${builder}/${app}/", "gen/${builder}/${app}/", ""])) + n + "_gen.h"] +
+                                 ([n + "_gen2.h"] if pick(rng, 0.2) else [])} if pick(rng, 0.9) else {})}
         if pick(rng, 0.7): m["is_build_dep"] = True
         if pick(rng, 0.5): m["sources"] = [n + ".tmpl"]
     else:
         if pick(rng, 0.8):
             srcs = [n + ".c"] + (["x%d.c" % rng.randint(0, 2)] if pick(rng, 0.3) else []) + ([n + ".S"] if pick(rng, 0.1) else [])
-            if pick(rng, 0.25): srcs.append({rng.choice(names): ["opt_" + n + ".c"]})
+            if pick(rng, 0.25): srcs.append({rng.choice(names[:2] if pick(rng, 0.6) else names): ["opt_" + n + ".c"]})
             m["sources"] = srcs
         if pick(rng, 0.03 if focus != "build" else 0.08): m["is_global_build_dep"] = True
     env = {}
@@ -104,7 +105,7 @@ def gen_defaults(rng, names, penv):
     if pick(rng, 0.5):
         dl = dep_list(rng, names, nmax=2)
         if dl: d[rng.choice(["selects", "depends"])] = dl
-    if pick(rng, 0.3): d["sources"] = ["common.c"] + ([{rng.choice(names): ["common_opt.c"]}] if pick(rng, 0.5) else [])
+    if pick(rng, 0.4): d["sources"] = ["common.c"] + ([{rng.choice(names[:2] if pick(rng, 0.6) else names): ["common_opt.c"]}] if pick(rng, 0.6) else [])
     if pick(rng, 0.3): d["uses"] = [rng.choice(names)]
     e = rand_env(rng, 0.5, pool=VARS)
     if e: d["env"] = {rng.choice(["local", "export", "global"]): e}
